@@ -245,3 +245,25 @@ OPTCHAIN_Q = dict(scenario='block_expr', args=dict(policy=expr_profile([['OptCha
 for p in ('C01', 'C02', 'C03', 'C06', 'C12', 'C13', 'C15'):
     PLANS[p]['quick'] = PLANS[p]['quick'] + [OPTCHAIN_Q]
     PLANS[p]['thorough'] = PLANS[p]['thorough'] + [OPTCHAIN_Q]
+
+
+# transform_js glue (C12)
+from scenario import TransformScenario
+
+_prev_make4 = make_scenario
+
+
+def make_scenario(name, args):
+    if name == 'transform':
+        sp = apply_pins(StmtPolicy(**args['policy']), args)
+        cfg = ConfigSpec(args.get('config', DEFAULT_CFG), prefix='test', verbosity=args.get('verbosity', 'Information'), literals=args.get('literals', False), comments=args.get('comments', False))
+        return TransformScenario(sp, cfg, kinds=args.get('kinds', ('Script',)), prologue=True)
+    return _prev_make4(name, args)
+
+
+TRANSFORM_Q = dict(scenario='transform', args=dict(policy=stmt_profile([['Block', 'Expr', 'Decl:Fn'], ['Expr', 'Return', 'Decl:Var']], [['Bin', 'Ident', 'Arrow', 'Lit'], ['Ident', 'Lit']], names=['a', '__datadog_test_0'], params=(0,), op_budget=2, all_present=True), kinds=('Script', 'Module'), verbosity=['Off', 'Information', 'Debug']),
+                   label='transform_js on programs with/without instrumentable operations, literal-only sums, expression-bodied arrows and reserved-prefix identifiers (cancelled), every verbosity; Compiler::print uninterpreted')
+PLANS['C12']['quick'] = PLANS['C12']['quick'] + [TRANSFORM_Q]
+PLANS['C12']['thorough'] = PLANS['C12']['thorough'] + [TRANSFORM_Q]
+PLANS['C13']['quick'] = PLANS['C13']['quick'] + [TRANSFORM_Q]
+PLANS['C13']['thorough'] = PLANS['C13']['thorough'] + [TRANSFORM_Q]
